@@ -2,6 +2,7 @@ import BSModel.Driver.Util
 import BSModel.Driver.C01
 import BSModel.Model.Text
 import BSModel.Model.TextHeap
+import BSModel.Model.Builder
 import BSModel.Gen.Text
 /-! line protocol of C13 (text extraction)
 
@@ -10,6 +11,11 @@ import BSModel.Gen.Text
     c13 sc <elementClasses> <containers> <top|N> <base|N>     BeautifulSoup.string_container
     c13 interesting <containers> <name>                        Tag.__init__'s interesting_string_types
     c13 strip <cps>
+    c13 parsecls <containers> <preserve names ';'|-> <events ';'>
+        C03's builder machine (Model/Builder.lean: pushTag/popTag with BOTH context stacks, _popToTag, endData,
+        string_container) run with the configuration `builderCfg` of a string_containers table and a
+        preserve_whitespace_tags set; events `s:<name cps>` `e:<name cps>` `d:<cps>` `x:<cls>|x:-`;
+        reply: class code of every string of the finished document, in document order, `.`-joined (`-` if none)
     c13 heap <mode> <kinds> <ops|-> <cls> <interesting> <nq> <query>*nq
         the pointer heap of Model/Heap.lean after the edit history `ops` (protocol of Driver/C01.lean) on fresh objects
         of the given kinds; cls = class code per initial id ('.'-separated; strings the library allocates are
@@ -232,7 +238,36 @@ def showInit : InitResult → String
   | .ok i => "ok " ++ showInteresting i
   | .typeError => "TypeError"
 
+/-! ### the parser machine of C03 with a string_containers table -/
+open BS.Builder in
+def parseCfg (cont : List (PStr × StrClass)) (pres : List PStr) : Cfg :=
+  builderCfg cont (fun n => pres.contains n) [32, 10, 9, 12, 13] (ofS "[document]")
+
+open BS.Builder in
+def parseEvent (s : String) : Option Ev :=
+  match s.splitOn ":" with
+  | ["s", n] => some (.start (cps n) none)
+  | ["e", n] => some (.stop (cps n) none)
+  | ["d", c] => some (.data (cps c))
+  | ["x", c] => some (.endData (if c == "-" then none else c.toNat?.map (fun k => (clsOf k).code)))
+  | _ => none
+
+open BS.Builder in
+partial def docClasses : Doc → List Nat
+  | .elem _ _ ks => ks.flatMap docClasses
+  | .text c _ => [codeOf (StrClass.ofCode c)]
+
+open BS.Builder in
+def handleParseCls (cont pres evs : String) : String :=
+  let cfg := parseCfg (parseContainers cont) ((splitNE ";" pres).map cps)
+  match (splitNE ";" evs).mapM parseEvent with
+  | none => "bad-event"
+  | some es =>
+    let cs := (build cfg es).flatMap docClasses
+    if cs.isEmpty then "-" else ".".intercalate (cs.map toString)
+
 def handle : List String → String
+  | ["parsecls", cont, pres, evs] => handleParseCls cont pres evs
   | ["scarg", dflt, arg] =>
     match builderStringContainers (parseContainers dflt) (parseSCArg arg) with
     | none => "none"
